@@ -253,6 +253,20 @@ def check_ordering_function(chk, fb, fbody, sorts):
         kbody = fb.bodies[kpath]
         ps = Interp(fb, _KeyPolicy()).run(kbody, [kval, Sym("i")])
         bad = [p for p in ps if p.status not in ("return", "unreachable")]
+        if bad and all("revisited" in (p.note or "") for p in bad):
+            # the left scan written as a loop (`for left in ops[..i].iter().rev() { if .. { continue } return .. } true`):
+            # brought into the vocabulary of `find`
+            from analysis import loops as _loops
+
+            class _KW(_KeyPolicy):
+                loop_mode = "widen"
+            wps = Interp(fb, _KW()).run(kbody, [kval, Sym("i")])
+            got, why_ = _loops.search_loop_paths(wps)
+            if got is not None:
+                ps, bad = got, []
+            else:
+                chk.unrecognised("R01.2", "key:%s" % key, "key closure contains a loop that is not a search (%s)" % why_, loc(kbody["span"]))
+                continue
         if bad:
             chk.unrecognised("R01.2", "key:%s" % key, "key closure shape not recognised: %s" % [(p.status, p.note) for p in bad][:2], loc(kbody["span"]))
             continue
@@ -352,6 +366,14 @@ def check_ordering_function(chk, fb, fbody, sorts):
         for p, b in rows:
             for d in p.decisions:
                 for sub in _closures_in(d[1]):
+                    if hasattr(sub, "cond"):
+                        # predicate of a search loop
+                        if _scan_predicate_ok(sub.cond):
+                            pred_ok = True if pred_ok is None else pred_ok
+                        else:
+                            pred_ok = False
+                            chk.violation("R01.3", "left-scan:%s" % key, "the left scan does not stop at the first operator with priority <= own: it stops under %s" % show(sub.cond)[:160], loc(kbody["span"]))
+                        continue
                     pb = fb.bodies.get(sub.path)
                     if pb is None or pb["arg_count"] != 2:
                         continue
